@@ -87,6 +87,12 @@ impl<'a> Output<'a> {
         unsafe { &mut *self.target }
     }
 
+    /// Returns the number of active captures.
+    #[cfg(feature = "verif_hooks")]
+    pub(crate) fn verif_capture_depth(&self) -> usize {
+        self.capture_stack.len()
+    }
+
     /// Returns `true` if the output is discarding.
     #[cfg(feature = "multi_template")]
     #[inline(always)]
